@@ -180,3 +180,34 @@ def run_oracle(w: dict, m: int) -> dict:
         except BaseException as exc:  # noqa: BLE001
             out["expr"] = {"ok": False, **_exc(exc)}
     return out
+
+
+# ---- griffe.sys_path used directly -------------------------------------------------------------------
+def run_syspath(w: dict, pmut: str, exit_kind: str) -> dict:
+    """`with griffe.sys_path(*import_paths): <mutate sys.path like the imported code would>; <leave by exit_kind>`."""
+    import griffe  # noqa: PLC0415
+
+    base = list(sys.path)
+    sys.path[:] = w["up"] + base
+    before_obj, before = sys.path, list(sys.path)
+    paths = [Path(p) for p in w["ip"]] if w["ipk"] == "path" else list(w["ip"])
+    out: dict = {"escaped": "none", "entered": False}
+    try:
+        with griffe.sys_path(*paths):
+            out["entered"] = True
+            out["inside_same"] = sys.path is before_obj
+            out["inside"] = path_tokens(w, base, sys.path)
+            if pmut == "append":
+                sys.path.append(w["plus"])
+            elif pmut == "rebind":
+                sys.path = [*sys.path, w["plus"]]
+            if exit_kind == "exception":
+                raise ValueError("x05 leaving by exception")
+            if exit_kind == "interrupt":
+                raise KeyboardInterrupt("x05 leaving by interrupt")
+    except BaseException as exc:  # noqa: BLE001
+        out["escaped"] = type(exc).__name__ + ":" + str(exc)
+    out["same_list"] = sys.path is before_obj
+    out["path"] = path_tokens(w, base, sys.path)
+    out["before"] = path_tokens(w, base, before)
+    return out
